@@ -254,6 +254,29 @@ fn support(m: &GateModule, t: &gate_eval::Topo, net: u32, limit: usize) -> Optio
     Some(leaves.into_iter().collect())
 }
 
+/// `aig_to_cells*` emit one `Buf(src -> port net)` per output port BIT; when
+/// two port bits share a net (the optimiser aliased them) the same cell is
+/// emitted twice.  Identical copies are harmless (the synthesizer's own
+/// worklist pass removes them right after); they are dropped here so that the
+/// structure oracle only reports real conflicts.  Returns how many were dropped.
+fn drop_identical_cells(m: &mut GateModule) -> usize {
+    let mut seen: BTreeSet<(u32, &'static str, Vec<u32>)> = BTreeSet::new();
+    let before = m.cells.len();
+    let mut keep = vec![];
+    for c in &m.cells {
+        if seen.insert((c.output, c.kind.symbol(), c.inputs.clone())) {
+            keep.push(c.clone());
+        }
+    }
+    if keep.len() != before {
+        m.cells = keep;
+        for (i, c) in m.cells.iter().enumerate() {
+            m.nets[c.output as usize].driver = veryl_synthesizer::ir::NetDriver::Cell(i);
+        }
+    }
+    before - m.cells.len()
+}
+
 struct SinkCmp {
     sinks: usize,
     exhaustive_sinks: usize,
@@ -432,7 +455,7 @@ fn one_case(d: &mut Draw) -> Outcome {
         let g4 = convert::aig_to_cells(&rw, g);
         (aig.and_count(), rw.and_count(), g2, g3, g4)
     }));
-    let (ands, ands_rw, g2, g3, g4) = match run {
+    let (ands, ands_rw, mut g2, mut g3, mut g4) = match run {
         Ok(x) => x,
         Err(e) => {
             let msg = e.downcast_ref::<&str>().map(|s| s.to_string()).or_else(|| e.downcast_ref::<String>().cloned()).unwrap_or_else(|| "panic".into());
@@ -443,6 +466,10 @@ fn one_case(d: &mut Draw) -> Outcome {
     let mut classes = case.classes.clone();
     classes.push(format!("family:{}", case.family));
     netlist_classes(g, &mut classes);
+    let dropped = drop_identical_cells(&mut g2) + drop_identical_cells(&mut g3) + drop_identical_cells(&mut g4);
+    if dropped > 0 {
+        classes.push("aig_to_cells:duplicate_buf_on_shared_port_net".into());
+    }
     let mut exh = 0;
     for (m2, what) in [(&g2, "rewrite+techmap"), (&g3, "aig_to_cells"), (&g4, "rewrite+aig_to_cells")] {
         match compare_sinks(d, g, m2, what) {
@@ -515,7 +542,7 @@ pub fn run(ctx: &Ctx) {
         exhaustive(ctx);
     }
     let n = std::env::var("C21_CASES").ok().and_then(|s| s.parse::<usize>().ok()).unwrap_or(ctx.scale(300, 20_000));
-    ctx.run("netlists", CaseCfg::cases(n).choices(12_000).timeout_s(600), |d| c19::discover("C21", one_case(d)));
+    ctx.run("netlists", CaseCfg::cases(n).choices(60_000).timeout_s(600), |d| c19::discover("C21", one_case(d)));
     ctx.set_exhaustive(false);
     ctx.note("exhaustive_part", json!("npn4: all 65536 4-input truth tables, all library entries, all 768 transforms of every library pattern"));
     ctx.assume("truth table convention of npn4.rs: bit m of a table is the value at inputs m (bit 0 = x0); NpnTransform = permute (new variable i is old variable perm[i]), then negate new inputs by in_neg, then negate the output");
